@@ -4,15 +4,34 @@ bounded-structure harness for C01: "every out-/in-event of the port is reference
 same-named event of the same-named port"."""
 from __future__ import annotations
 
+import os
 import z3
 
 from pyvc import ops, ghostlib, symobj
 from pyvc.harness import Ctx, refines
 from pyvc.path import Path
 from pyvc.sorts import TypeDesc
-from pyvc.values import ObjV, Unsupported
+from pyvc.values import ObjV, Unsupported, SeqV, SeqT, LitB
 
 PR = 'dznpy.adv_shell.core.processing'
+
+
+def ns_inv(interp, path, v):
+    """class invariant of NamespaceIds (established by its constructor, preserved by + and +=: contracts proved under
+    C14): every item is an identifier - an instantiable hypothesis"""
+    from pyvc.path import fresh_name
+    z = interp.sorts.accessor(v.cls, 'items')(v.expr)
+    reg = path.__dict__.setdefault('_nsinv', set())
+    if z.get_id() in reg:
+        return None
+    reg.add(z.get_id())
+    q = z3.Int(fresh_name('q'))
+    path.add_hyp([q], z3.Implies(z3.And(q >= 0, q < z3.Length(z)), ops.with_facts(ops.is_ident(z[q]))), 'inv_NamespaceIds')
+    return None
+
+
+def i_getattr(I, obj, name, p):
+    return I.getattr_(obj, name, p)
 
 
 def run(ctx: Ctx):
@@ -120,3 +139,160 @@ def run_final_construct(ctx: Ctx):
         I.class_invs.clear()
         I.class_invs.update(saved)
         I.extra_model_classes = ()
+
+
+def run_reroute(ctx: Ctx, which=('reroute_in_events', 'reroute_out_events', 'reroute_multiclient_out_events')):
+    """C01 C02 C04 for ANY number of events and parameters: the reroute functions against specs.wiring_unbounded.
+    find_fqn is replaced by its contract 'the parameter type resolves to exactly one declaration, an extern'
+    (ghost.extern_of, uninterpreted): which declaration that is, is decided by C07 / C14."""
+    I = ctx.interp
+    ghostlib.install(I)
+    I.model_strings_break_free = True
+    pr = I.load_module(PR)
+    cm = I.load_module('dznpy.adv_shell.common')
+    av = I.load_module('dznpy.ast_view')
+    spec = I.load_module('specs.wiring_unbounded')
+    CppPortItf, CppEncapsulee, Facilities = (cm.globals[n] for n in ('CppPortItf', 'CppEncapsulee', 'Facilities'))
+    ghost_ext = I.overrides['specs.ghost.extern_of']
+
+    def find_fqn_contract(i, path, args, kw):
+        fct, ids = args[0], args[1]
+        scope = args[2] if len(args) > 2 else kw['as_of_inner_scope']
+        ext = ghost_ext(i, path, [fct, ids, scope], {})
+        return i.call(av.globals['FindResult'], [], {'items': SeqV(SeqT([LitB([ext])]))}, path)
+
+    def inv_name(interp, path, v):
+        a = interp.sorts.accessor(v.cls, 'name')(v.expr)
+        return ops.with_facts(ops.is_ident(a))
+
+    def inv_data(interp, path, v):
+        a = interp.sorts.accessor(v.cls, 'value')(v.expr)
+        interp.break_free_syms.add(a.get_id())
+        return None
+    saved = dict(I.class_invs)
+    for cls in ('Port', 'Event', 'Formal'):
+        I.class_invs[f'dznpy.ast.{cls}'] = [inv_name]
+    I.overrides['dznpy.ast_view.find_fqn'] = find_fqn_contract
+    I.overrides[f'{PR}.find_fqn'] = find_fqn_contract
+
+    def mk(p, mc):
+        port = symobj.fresh_value(I, p, TypeDesc('cls', CppPortItf), 'in_port',
+                                  opt_choice=lambda n: mc if n.endswith('multiclient') else False)
+        enc = symobj.fresh_value(I, p, TypeDesc('cls', CppEncapsulee), 'in_enc')
+        fac = symobj.fresh_value(I, p, TypeDesc('cls', Facilities), 'in_fac', opt_choice=lambda n: False)
+        for z in (port.fields['accessor_target'], enc.fields['member_var'].fields['name'],
+                  fac.fields['dispatcher'].fields['name']):
+            zz = ops.to_zstr(z)
+            I.break_free_syms.add(zz.get_id())
+            p.assume(ops.with_facts(ops.is_ident(zz)))
+        I.apply_class_invs(port.fields['dzn_port_itf'].fields['port'], p)
+        from pyvc.interp import OpaqueV
+        fct = OpaqueV(None, 'the file contents (only passed on to find_fqn)')
+        return port, fac, enc, fct
+
+    try:
+        for fname, sname, nargs in (('reroute_in_events', 'blocking_in_events', 4),
+                                    ('reroute_out_events', 'posted_out_events', 4),
+                                    ('reroute_multiclient_out_events', 'multiclient_out_events', 2)):
+            if fname not in which:
+                continue
+            f = I.get_function(f'{PR}.{fname}')
+            for mc in ((False, True) if fname == 'reroute_in_events' else ((True,) if nargs == 2 else (False,))):
+                def mk_args(p, mc=mc, nargs=nargs):
+                    port, fac, enc, fct = mk(p, mc)
+                    a = [port, fac, enc, fct] if nargs == 4 else [port, fct]
+                    return a, a
+                ctx.functions[f'{PR}.{fname}'] = 'proved (unbounded: any number of events and parameters; ' \
+                                                 'find_fqn by contract)'
+                refines(ctx, f'processing.{fname}{".mc" if mc and nargs == 4 else ""}', f'{PR}.{fname}',
+                        lambda i, p, a, k, f=f: i.call_function(f, a, k, p),
+                        lambda i, p, a, k, sname=sname: i.call_function(spec.globals[sname], a, k, p), mk_args,
+                        witness=None, text=f'{fname}: one handler per matching event, in order; parameters typed by the '
+                                           f'resolved extern, in-parameters captured by value')
+    finally:
+        I.class_invs.clear()
+        I.class_invs.update(saved)
+        I.overrides.pop('dznpy.ast_view.find_fqn', None)
+        I.overrides.pop(f'{PR}.find_fqn', None)
+
+
+def run_claim_release(ctx: Ctx):
+    """C04 for ANY number of parameters: the claim / release handlers of InitializePort<Port>()."""
+    I = ctx.interp
+    ghostlib.install(I)
+    I.model_strings_break_free = True
+    pr = I.load_module(PR)
+    cm = I.load_module('dznpy.adv_shell.common')
+    av = I.load_module('dznpy.ast_view')
+    spec = I.load_module('specs.wiring_unbounded')
+    CppPortItf = cm.globals['CppPortItf']
+    ghost_ext = I.overrides['specs.ghost.extern_of']
+
+    def find_fqn_contract(i, path, args, kw):
+        fct, ids = args[0], args[1]
+        scope = args[2] if len(args) > 2 else kw['as_of_inner_scope']
+        ext = ghost_ext(i, path, [fct, ids, scope], {})
+        return i.call(av.globals['FindResult'], [], {'items': SeqV(SeqT([LitB([ext])]))}, path)
+
+    def inv_name(interp, path, v):
+        a = interp.sorts.accessor(v.cls, 'name')(v.expr)
+        return ops.with_facts(ops.is_ident(a))
+    saved = dict(I.class_invs)
+    for cls in ('Port', 'Event', 'Formal'):
+        I.class_invs[f'dznpy.ast.{cls}'] = [inv_name]
+    I.overrides['dznpy.ast_view.find_fqn'] = find_fqn_contract
+    I.overrides[f'{PR}.find_fqn'] = find_fqn_contract
+    I.class_invs['dznpy.scoping.NamespaceIds'] = [ns_inv]
+
+    def mk_args(p):
+        port = symobj.fresh_value(I, p, TypeDesc('cls', CppPortItf), 'in_port', opt_choice=lambda n: n.endswith('multiclient'))
+        zz = ops.to_zstr(port.fields['accessor_target'])
+        I.break_free_syms.add(zz.get_id())
+        p.assume(ops.with_facts(ops.is_ident(zz)))
+        I.apply_class_invs(port.fields['dzn_port_itf'].fields['port'], p)
+        from pyvc.interp import OpaqueV
+        fct = OpaqueV(None, 'the file contents (only passed on to find_fqn)')
+        mcf = port.fields['dzn_port_itf'].fields['multiclient']
+        # the fixture is one check_multiclient_cfg produced: granting reply = <enum fqn> + <value>, never empty
+        reply = i_getattr(I, mcf, 'claim_granting_reply', p)
+        p.assume(z3.Length(I.sorts.accessor(reply.cls, 'items')(reply.expr)) > 0)
+        a = [port, mcf, fct]
+        return a, a
+
+    def mk_impl_args(p):
+        (port, mcf, fct), _ = mk_args(p)
+        sf = symobj.fresh_value(I, p, TypeDesc('cls', I.load_module('dznpy.scoping').globals['NamespaceIds']), 'in_sfns')
+        itf = i_getattr(I, port.fields['dzn_port_itf'], 'interface', p)
+        fqn = i_getattr(I, itf, 'fqn', p)
+        p.assume(z3.Length(I.sorts.accessor(fqn.cls, 'items')(fqn.expr)) > 0)      # an interface has a name
+        a = [port, sf, fct]
+        return a, a
+
+    try:
+        if not os.environ.get('PYVC_SKIP_INITPORT'):
+            f = I.get_function(f'{PR}.initialize_port_impl')
+            ctx.functions[f'{PR}.initialize_port_impl'] = 'proved (unbounded: any number of events and parameters)'
+
+            def impl0(i, p, a, k, f=f):
+                tb = i.call_function(f, a, k, p)
+                return i.getattr_(tb, 'lines', p)
+            refines(ctx, 'processing.initialize_port_impl', f'{PR}.initialize_port_impl', impl0,
+                    lambda i, p, a, k: i.call_function(spec.globals['initialize_port_lines'], a, k, p), mk_impl_args,
+                    witness=None, text='InitializePort<Port>(): every in-event of the client port reaches the '
+                                       'arbitered port; claim selects on the granting reply, release deselects')
+        for fname, sname in (('initialize_port_claim_snippet', 'claim_lines'),
+                             ('initialize_port_release_snippet', 'release_lines')):
+            f = I.get_function(f'{PR}.{fname}')
+            ctx.functions[f'{PR}.{fname}'] = 'proved (unbounded: any number of parameters; find_fqn by contract)'
+
+            def impl(i, p, a, k, f=f):
+                tb = i.call_function(f, a, k, p)
+                return i.getattr_(tb, 'lines', p)
+            refines(ctx, f'processing.{fname}', f'{PR}.{fname}', impl,
+                    lambda i, p, a, k, sname=sname: i.call_function(spec.globals[sname], a, k, p), mk_args,
+                    witness=None, text=f'{fname}: forwards to the arbitered port and (de)selects the client')
+    finally:
+        I.class_invs.clear()
+        I.class_invs.update(saved)
+        I.overrides.pop('dznpy.ast_view.find_fqn', None)
+        I.overrides.pop(f'{PR}.find_fqn', None)
